@@ -204,6 +204,7 @@ def run_case(case):
 
     run_guarded(res, lambda: run.run(body))
     stats["decisions"] = run.decisions
+    dig.add_events(run.events)
     nontrivial = stats["probes"]["reads"] > 0 and any(stats["faults"].values())
     return finish(res, dig, stats, nontrivial)
 
